@@ -59,9 +59,15 @@ package builtins
 //@ safety makeslice
 //@ assume[args.wf] ctx != nil && forall(k, 0, len(args), args[k] != nil && ref(args[k]) != nil)
 //@ func List
-//@ props C01 C03
+//@ props C01 C03 C16
 //@ safety makeslice
 //@ assume[args.wf] ctx != nil && forall(k, 0, len(args), args[k] != nil && ref(args[k]) != nil)
+// C16: list(x) is a new list: its element array is allocated by the call (or empty), never the array of an argument -
+// in-place operations on the result and on the argument do not show through each other (seed C16h returned
+// slices.Clip of the argument's items for a list argument).
+//@ invariant 1: true
+//@ invariant 2: cap(items) == 0 || fresh(items)
+//@ ensures[C16.list.builtin.fresh] typeof(result) == *object.List && ref(result) != nil ==> fresh(result) && (cap(result.(*object.List).items) == 0 || fresh(result.(*object.List).items))
 //@ func Make
 //@ props C01 C03
 //@ safety makeslice makemap makechan
